@@ -64,7 +64,15 @@ def check(rep, an, tier):
         from .C15 import tolerances
         tolerances(rep, res, entry)
         # error dispatch
-        top_raise = [e for e in res.events("raise") if R.near(e) and e.d.get("exc") == "ValueError" and "outside" in norm_text(e.node)]
+        # the out-of-gamut error: a raise in the entry (or its private helpers) that is guarded by the membership result — identified
+        # by what it depends on, not by its message
+        def gamut_guarded(e):
+            for g in e.guards:
+                deps = set(g[4]) if len(g) > 4 and g[4] is not None else set()
+                if {"B", "A"} <= deps or "inhull" in g[0] or "in_hull" in g[0]:
+                    return True
+            return False
+        top_raise = [e for e in res.events("raise") if R.near(e) and e.d.get("exc") in ("ValueError", "RuntimeError", "Exception") and gamut_guarded(e)]
         warns = [e for e in res.events("warn") if R.near(e)]
         fits = [e for e in res.events("call") if e.d["callee"].name == "lsq_linear" and R.near(e)]
         if cfg["error"] in ("raise", "other"):
